@@ -282,8 +282,12 @@ func (kde *KDE) Bounds() (low float64, high float64) {
 	// Use the lowest and highest samples as starting points
 	lowX, highX := kde.Sample.Bounds()
 	if lowX == highX {
-		lowX -= 1
-		highX += 1
+		// Widen by 1, or by more where 1 is too small to change
+		// a value of this magnitude (otherwise the expansion
+		// below would never make progress).
+		d := math.Max(1, math.Abs(lowX)*0x1p-40)
+		lowX -= d
+		highX += d
 	}
 
 	// Find the end points that contain 99% of the CDF's weight.
